@@ -194,7 +194,7 @@ def gen_tables(rng, prof):
             if rng.random() < 0.3: r['address'] = rng.choice(['1.2.3.0/24', '10.0.0.0/8', '2001:db8::/32', '1.2.3.4', '*', '10.*', '2001:db8:*', '::/0', '200.0.0.0/5', '1.2.3.4/32', '2001:db8::a:b:c:0/112', '0::1/128'])
             if rng.random() < 0.2: r['username'] = rng.choice(['ident', '~*', 'ab*', '*', 'i?ent'])
             if rng.random() < 0.2: r['hostname'] = rng.choice(['*.example.org', 'a', '*', '', 'host.*'])
-            if rng.random() < 0.2 and names: r['xreply_ok'] = rng.choice(names + [names[0].upper(), 'nosuch.x'])
+            if rng.random() < prof.get('p_xok', 0.2) and names: r['xreply_ok'] = rng.choice(names + [names[0].upper(), 'nosuch.x'])
             rules.append(r)
         rules = sorted_rules(rules)
     return svcs, rules
@@ -212,6 +212,7 @@ def gen_scn(rng, prof, hist=lambda k, n=1: None):
     timeout = rng.choice(prof.get('timeouts', [0, 0, 3600]))
     scn = Scn(with_xq, with_class, svcs, rules, timeout)
     sh = Shadow(svcs, timeout, with_xq)
+    cur_svcs = [list(svcs)]
     oldtags = []
     idpool = prof.get('ids')
     if idpool is None:
@@ -231,6 +232,24 @@ def gen_scn(rng, prof, hist=lambda k, n=1: None):
         r = rng.random()
         cid = rng.choice(ids)
         c = sh.live.get(cid)
+        if with_xq and rng.random() < prof.get('p_reload', 0.0):
+            # a successful reload between two input lines: drop a service (preferably one somebody awaits), change a protocol in
+            # place, or add a service; clients in flight keep what they were promised
+            cur = list(scn.items[-1][1]) if scn.items and scn.items[-1][0] == 'R' else [(n_, t_) for n_, t_ in cur_svcs[0]]
+            awaited = sorted({n_ for cl in sh.live.values() for n_ in cl.out})
+            e = rng.random()
+            if e < 0.5 and cur:
+                victim = rng.choice([x for x in cur if x[0] in awaited] or cur)
+                cur = [x for x in cur if x != victim]; hist("reload:drop service")
+            elif e < 0.75 and cur:
+                i_ = rng.randrange(len(cur)); cur[i_] = (cur[i_][0], rng.choice(TYPES)); hist("reload:change protocol")
+            else:
+                free = [n_ for n_ in ['n1.x', 'n2.x', 'z9.x'] if n_.lower() not in [x[0].lower() for x in cur]]
+                if free: cur.append((rng.choice(free), rng.choice(TYPES)))
+                hist("reload:add service")
+            cur = sorted_svcs(cur); cur_svcs[0] = cur
+            scn.items.append(('R', cur, rules, timeout)); sh.svcs = [(n_, t_.lower()) for n_, t_ in cur]
+            continue
         if c is None and sh.serial > 0 and rng.random() < prof.get('p_departed', 0.2):
             # traffic for an id that is not live (never announced, decided or withdrawn): must be ignored
             emit("%d %s" % (cid, rng.choice(['N late.example.org', 'u ident', 'u', 'n Late', 'U user :Real', 'H', 'H', 'H', 'P :+x acct pw', 'P :+x acct pw', 'd', 'T', 'D', '! timeout']))); continue
@@ -253,6 +272,12 @@ def gen_scn(rng, prof, hist=lambda k, n=1: None):
         elif r < 0.88 and with_xq:
             k = rng.random()
             svcnames = [s_[0] for s_ in sh.svcs]
+            if k < prof.get('p_good_reply', 0.72) and len(c.out) >= 2 and rng.random() < prof.get('p_burst', 0.3):
+                # every awaited service answers in a row, with a mix of stamped and plain OKs (order matters for the stored account)
+                tg = c.tag()
+                for svc_ in rng.sample(sorted(c.out), len(c.out)):
+                    emit("-1 X %s %s :%s" % (svc_, tg, rng.choice(['OK %s' % rng.choice(ACCTS), 'OK', 'OK ', 'OK other:9', 'OK %s' % rng.choice(ACCTS)])))
+                continue
             if k < prof.get('p_good_reply', 0.72) and c.out:
                 tag = c.tag(); svc = rng.choice(sorted(c.out))
             elif k < 0.84:
@@ -600,7 +625,8 @@ def standard_run(chk, profile, nq, nt, extra=()):
     drv, impl = env
     n = nq if chk.tier == "quick" else nt
     intense = dict(profile, maxcli=1, minlen=8, maxlen=28, w_pass=6, w_missing=1, p_good_reply=0.85, p_departed=0.35, p_xq=1.0, nsv=[1, 2, 2, 3], timeouts=profile.get('timeouts', [0, 0, 3600]))
-    scns = corpus() + [gen_scn(chk.rng, profile if i % 3 else intense, chk.hist) for i in range(n)]
+    reloading = dict(profile, maxcli=2, minlen=8, maxlen=24, p_good_reply=0.85, p_xq=1.0, nsv=[1, 2, 2, 3], p_reload=0.12)
+    scns = corpus() + [gen_scn(chk.rng, (reloading if i % 12 == 5 else profile) if i % 3 else intense, chk.hist) for i in range(n)]
     ms = run_model(drv, scns)
     ds = run_daemons(impl, scns)
     chk.cov["samples"] = [scns[0].describe().split("\n"), scns[len(corpus()) + 1].describe().split("\n")[:25]]
